@@ -62,12 +62,13 @@ class _Raw(io.BytesIO):
             yield c
 
 
-def record(op, rcc, fail_first=0, size=6, read_chunk=4):
+def record(op, rcc, fail_first=0, size=6, read_chunk=4, http=False):
     """-> normalized op log of one client call"""
     log = []
     sess = botocore.session.get_session()
+    kw = {'endpoint_url': 'http://127.0.0.1:1'} if http else {}
     client = sess.create_client(
-        's3', region_name='us-east-1', aws_access_key_id='AKIDEXAMPLE', aws_secret_access_key='secret',
+        's3', region_name='us-east-1', aws_access_key_id='AKIDEXAMPLE', aws_secret_access_key='secret', **kw,
         config=Config(request_checksum_calculation=rcc, retries={'max_attempts': 3, 'mode': 'legacy'},
                       s3={'addressing_style': 'path'}))
     client.meta.events.register_first('request-created.s3', signal_not_transferring, unique_id='s3upload-not-transferring')
@@ -117,7 +118,7 @@ def normalize(log):
     return out
 
 
-def fake_sequence(op, rcc, retries, size=6, read_chunk=4):
+def fake_sequence(op, rcc, retries, size=6, read_chunk=4, http=False):
     """what env/s3.FakeClient does to the same recorder body"""
     from ..detsched import Sched
     from .s3 import FakeS3, FakeClient, FaultPlan
@@ -128,7 +129,7 @@ def fake_sequence(op, rcc, retries, size=6, read_chunk=4):
     def main():
         s3 = FakeS3(s)
         plan = FaultPlan(sites=['body:retry'] if retries else (), max_body_retries=retries)
-        c = FakeClient(s3, s, plan=plan, rcc=rcc, body_read_size=read_chunk)
+        c = FakeClient(s3, s, plan=plan, rcc=rcc, body_read_size=read_chunk, http=http)
         c.meta.events.register_first('request-created.s3', signal_not_transferring, unique_id='a')
         c.meta.events.register_last('request-created.s3', signal_transferring, unique_id='b')
         # mark the send phase the same way
@@ -166,6 +167,15 @@ def conformance():
                 protos[f'{op}/{rcc}/retries={retries}'] = real
                 if strip(real) != strip(fake):
                     mism.append({'case': f'{op}/{rcc}/retries={retries}', 'real_botocore': real, 'fake_client': fake})
+        # plain-http endpoint: header checksum computed before the request is created
+        for rcc in ('when_required', 'when_supported'):
+            for retries in (0, 1):
+                real = record(op, rcc, fail_first=retries, http=True)
+                fake = fake_sequence(op, rcc, retries, http=True)
+                n += 1
+                protos[f'{op}/{rcc}/http/retries={retries}'] = real
+                if strip(real) != strip(fake):
+                    mism.append({'case': f'{op}/{rcc}/http/retries={retries}', 'real_botocore': real, 'fake_client': fake})
     return n, mism, protos
 
 
